@@ -22,6 +22,8 @@ VERIF = scratch.VERIF
 #   where = "append:<repo rel path>" : the witness (a #[cfg(test)] module) is appended to that source file (private access)
 WITNESS = [
     (r"Move::set_previous_halfmove|Bitboard::unmake|Bitboard::make_move", "board", "inkayaku_board", "c03_make_unmake.rs", "witness_"),
+    (r"Bitboard::(find_uci|make_uci|make_all_uci)", "board", "inkayaku_board", "c13_rejected_move.rs", "witness_find_uci|witness_make_uci"),
+    (r"uci_to_pgn", "board", "inkayaku_board", "c13_rejected_move.rs", "witness_uci_to_pgn"),
     (r"lemma_shipped_thresholds|Heuristic::evaluate", "append:engine_core/src/engine/heuristic/simple.rs", "inkayaku_engine_core", "c10_fifty_move.rs", "verif_witness_c10"),
 ]
 
@@ -38,10 +40,10 @@ def run_witness(crate, pkg, fname, flt, timeout=1500):
     with scratch.Scratch("replay") as s:
         if crate.startswith("append:"):
             s.write(crate[len("append:"):], "\n" + src, append=True)
-            cmd = ["cargo", "test", "--offline", "-p", pkg, "--lib", "--", flt, "--test-threads", "4"]
+            cmd = ["cargo", "test", "--offline", "-p", pkg, "--lib", "--"] + flt.split("|") + ["--test-threads", "4"]
         else:
             s.write(f"{crate}/tests/verif_{fname}", src)
-            cmd = ["cargo", "test", "--offline", "-p", pkg, "--test", "verif_" + fname[:-3], "--", flt, "--test-threads", "4"]
+            cmd = ["cargo", "test", "--offline", "-p", pkg, "--test", "verif_" + fname[:-3], "--"] + flt.split("|") + ["--test-threads", "4"]
         p = subprocess.run(cmd, cwd=s.repo, env=scratch.cargo_env("target-replay"), capture_output=True, text=True, timeout=timeout)
     out = p.stdout[-9000:] + "\n--- stderr (tail) ---\n" + p.stderr[-1500:]
     return p.returncode, out, " ".join(cmd)
